@@ -138,10 +138,11 @@ PROPS["C07"] = {
 }
 
 PROPS["C01"] = {
-    "module": "Matreex.Props.C01", "harness": "C01", "extra_modules": ["Matreex.Props.C01Ledger"],
-    "technique": "Lean 4: coherence as an inductive invariant of every finite history over a 21-constructor operation language (no fault on any reachable state; per-operation step lemmas from the specifications of C05/C08-C12/C14/C19) + ownership-ledger model with ONE permutation invariant (live ++ dropped ++ moved-out ~ [0, nextId)) by induction over histories; correspondence on random histories with an independent row-of-rows reference and the per-operation ledger deltas",
+    "module": "Matreex.Props.C01", "harness": "C01", "extra_modules": ["Matreex.Props.C01Ledger", "Matreex.Props.C01Refine"],
+    "technique": "Lean 4: coherence as an inductive invariant of every finite history over a 21-constructor operation language (no fault on any reachable state; per-operation step lemmas from the specifications of C05/C08-C12/C14/C19) + ownership-ledger model with ONE permutation invariant (live ++ dropped ++ moved-out ~ [0, nextId)) by induction over histories; + refinement of the concrete machine to a logical reference model (order tag, extents, partial function from coordinates to elements; every operation a few lines) for every history; correspondence on random histories with an independent row-of-rows reference and the per-operation ledger deltas",
     "level_text": "Machine-checked Lean 4 theorems: (1) run_inv — for every finite history of well-formed operations from the empty register file no operation faults and every live matrix is coherent with a usize element count; coh_meaning — in a coherent matrix every in-bounds coordinate resolves to its own distinct existing element; (2) C01Ledger.run_inv / inv_nodup / all_accounted — in the ownership-flow model no token is ever duplicated, dropped twice or lost, for every history. "
-                  "The contents clause (equal to a row-of-rows reference) is carried by the per-operation specification theorems of the other properties plus the correspondence run (independent reference after every operation). The ledger model is an abstraction of ownership flow (operation classes); it is tied to the implementation by comparing, for every operation of every random history, the number of tokens created and dropped with Ledger.delta, and by the real unique-id ledger (never a double drop, nothing live once all matrices are dropped).",
+                  "(3) run_refines — the contents clause: for every finite history the logical view of the concrete world (order tag, extents, element at every coordinate) EQUALS the world of a plain logical reference model (Spec, ~150 lines: the textbook meaning of each of the 21 operations, including which calls fail) run on the same operations; the harness's independent row-of-rows reference checks the same after every operation of every generated history on the implementation. "
+                  "The ledger model is an abstraction of ownership flow (operation classes); it is tied to the implementation by comparing, for every operation of every random history, the number of tokens created and dropped with Ledger.delta, and by the real unique-id ledger (never a double drop, nothing live once all matrices are dropped).",
     "trusted": ["the mapping from protocol operations to ledger operation classes (lean/Driver/Ledger.lean) and the History.step glue are hand-written",
                 "zero-sized element types with drop glue are covered by the correspondence run only (drop counts), the functional model is for sized types (zst flags false in History.step)",
                 "operations not in the History language (iterators, views, eq, contains, Display, parallel helpers) do not change any matrix; consuming iterators are ledger class intoIter"],
